@@ -102,7 +102,7 @@ inline WConfig gen_config(bool many_blocks = false, bool allow_pool = true) {
     c.block_size = one_of<long long>({1, 1024, 1024, 1024, 1025, 1500, 2048});
   } else {
     c.block_size_set = !chance(10);
-    c.block_size = one_of<long long>({1, 1024, 1024, 1025, 1500, 4096, 8192, 65536});
+    c.block_size = one_of<long long>({1, 1024, 1024, 1025, 1500, 4096, 8192, 65536, 262144});  // 256 KiB: several > 64 KiB entries per block
   }
   c.restart = one_of<int>({1, 2, 3, 4, 7, 16, 16, 1000});
   if (allow_pool && chance(25)) c.pool = one_of<int>({0, 1, 2, 4, 8});
